@@ -1,14 +1,14 @@
-// Command harness runs, for one property, the correspondence check between the Lean
-// model (through the driver's line protocol) and the real code in /repo, evaluates the
-// property's own oracle on the real code's behaviour, and writes a JSON result for ./check.
-package main
+// Package hx is the frame every property harness (go/props/cXX, one command per property)
+// shares: it runs, for one property, the correspondence check between the Lean model
+// (through the driver's line protocol) and the real code in /repo, evaluates the property's
+// own oracle on the real code's behaviour, and writes a JSON result for ./check.
+package hx
 
 import (
 	"encoding/json"
 	"flag"
 	"fmt"
 	"os"
-	"sort"
 
 	"verifharness/internal/proto"
 )
@@ -44,34 +44,16 @@ func (c *Ctx) N(quick, thorough int) int {
 
 type Runner func(*Ctx) error
 
-var runners = map[string]Runner{}
-
-func main() {
-	prop := flag.String("prop", "", "property id")
+// Main is the main function of a property harness.
+func Main(property string, run Runner) {
+	prop := flag.String("prop", property, "property id")
 	tier := flag.String("tier", "quick", "quick|thorough")
 	seed := flag.Uint64("seed", 1, "seed")
 	driver := flag.String("driver", "", "path of the Lean driver executable")
 	out := flag.String("out", "", "result file")
 	findings := flag.String("findings", "", "known_findings.json")
 	replay := flag.String("replay", "", "replay file")
-	list := flag.Bool("list", false, "list properties with a runner")
 	flag.Parse()
-	if *list {
-		var ids []string
-		for id := range runners {
-			ids = append(ids, id)
-		}
-		sort.Strings(ids)
-		for _, id := range ids {
-			fmt.Println(id)
-		}
-		return
-	}
-	run, ok := runners[*prop]
-	if !ok {
-		fmt.Fprintf(os.Stderr, "harness: no runner for %q\n", *prop)
-		os.Exit(2)
-	}
 	ctx := &Ctx{Prop: *prop, Tier: *tier, Seed: *seed, R: proto.NewRand(*seed), Replay: *replay}
 	ctx.Res = proto.NewResult(*prop, *tier, *seed)
 	if *findings != "" {
@@ -124,16 +106,16 @@ func (c *Ctx) HasFinding(id string) bool {
 	return false
 }
 
-// known returns id if it is listed as an open known finding, "" otherwise.
-func (c *Ctx) known(id string) string {
+// Known returns id if it is listed as an open known finding, "" otherwise.
+func (c *Ctx) Known(id string) string {
 	if c.HasFinding(id) {
 		return id
 	}
 	return ""
 }
 
-// shrinkBytes is delta debugging on a byte string: smallest input still failing.
-func shrinkBytes(b []byte, failing func([]byte) bool) []byte {
+// ShrinkBytes is delta debugging on a byte string: smallest input still failing.
+func ShrinkBytes(b []byte, failing func([]byte) bool) []byte {
 	cur := append([]byte(nil), b...)
 	for chunk := len(cur) / 2; chunk >= 1; {
 		progressed := false
